@@ -648,6 +648,12 @@ func (w *worker) check(j *job) {
 		}
 		rep.Count(outcome)
 		rep.Count("memlen:" + c.MemLen)
+		if n, _ := strconv.Atoi(r["n"]); n >= 3 && outcome == "out:values" {
+			rep.Count("run:values-with-linear-memory-access")
+			for k := nchk; k < nacc && *mutate != 1; k++ {
+				rep.Count("run:executed-access-whose-check-was-elided")
+			}
+		}
 		if n, _ := strconv.Atoi(r["n"]); n > 0 {
 			rep.Count("run:with-executed-access")
 			for k := 0; k < n; k++ {
@@ -750,7 +756,7 @@ func uninitReadsOf(f *fnDef) int {
 
 // ---------------------------------------------------------------- argument vectors, memory sizes, initial bytes
 
-var memLens = []uint64{0, 1, 2, 3, 4, 7, 8, 9, 16, 64, 255, 256}
+var memLens = []uint64{0, 1, 2, 3, 4, 7, 8, 9, 16, 64, 64, 255, 256, 256, 256, 256}
 
 // ceils: offset+width of the live accesses
 func ceils(f *fnDef) []uint64 {
@@ -785,7 +791,7 @@ func genCase(r *rand.Rand, f *fnDef, big bool) memCase {
 			ceil = cs[r.Intn(len(cs))]
 		}
 		var v uint64
-		switch r.Intn(14) {
+		switch r.Intn(20) {
 		case 0:
 			v = 0
 		case 1:
@@ -807,8 +813,8 @@ func genCase(r *rand.Rand, f *fnDef, big bool) memCase {
 		case 10:
 			v = memlen / 2
 		default:
-			if memlen > 0 {
-				v = uint64(r.Int63n(int64(memlen)))
+			if memlen > 24 {
+				v = uint64(r.Int63n(int64(memlen - 24)))
 			}
 		}
 		args[k] = v & 0xffffffff
